@@ -45,6 +45,12 @@ Groups(s, w) ==
 \* accumulator twice is re-evaluated lazily by TLC and becomes exponential.
 SumSeq(s) == FoldLeft(LAMBDA a, b : a + b, 0, s)
 
+\* big-endian bits of v in w positions, and back
+BitsBE(v, w) == [j \in 1..w |-> (v \div (2 ^ (w - j))) % 2]
+ValBE(bits) == FoldLeft(LAMBDA a, b : 2 * a + b, 0, bits)
+BytesToBits(bs) == FlattenFixed([i \in DOMAIN bs |-> BitsBE(bs[i], 8)], 8)
+BitsToBytes(bits) == [g \in 1..(Len(bits) \div 8) |-> ValBE(SubSeq(bits, 8 * g - 7, 8 * g))]
+
 Pow(b, e) ==
   LET p[i \in 0..e] == IF i = 0 THEN 1 ELSE b * p[i-1]
   IN p[e]
